@@ -77,12 +77,13 @@ func initScratch() {
 }
 
 func cleanupScratch() {
-	if scratchDir != "" {
+	if scratchDir != "" && !keepQueries {
 		os.RemoveAll(scratchDir)
 	}
 }
 
 var qcounter int64
+var keepQueries bool
 
 // runQuery races the solvers on the query text. fastFirst: try z3-new alone with a
 // short timeout first (most obligations discharge in milliseconds).
@@ -98,7 +99,9 @@ func runQuery(query string, timeoutS int, wantModel bool) SolverAnswer {
 	if err := os.WriteFile(file, []byte(body), 0o644); err != nil {
 		return SolverAnswer{Verdict: VUnknown, Output: err.Error()}
 	}
-	defer os.Remove(file)
+	if !keepQueries {
+		defer os.Remove(file)
+	}
 
 	// stage 1: z3-new alone, 2s
 	first := runOne(solvers[0], file, min(2, timeoutS))
